@@ -3,7 +3,7 @@ codes into sentences, selection of the smallest failing case, distribution facts
 from vf import framework as fw
 
 HEADER = """From Coercion.Base Require Import Plan.
-From Coercion.Store Require Import Tree Rows Spec SqliteModel StoreCheck."""
+From Coercion.Store Require Import Tree Rows Spec SqliteModel CosmosModel StoreCheck."""
 
 PLAN_DIFF = {0: "no top-level field (a nested object differs)", 1: "ID", 2: "GroupID", 3: "Name", 4: "Descr", 5: "Meta",
              6: "State (status/start/end)", 7: "SubmitTime", 8: "Reason", 9: "BypassChecks", 10: "PreChecks", 11: "ContChecks",
@@ -90,7 +90,7 @@ def classify(ctx, pid, cases, results, what):
         if i is not None:
             trace = trace[:i + 1]
         ctx.violation(dict(kind=what, why=why, case=c["id"], case_kind=c["kind"], backend=c["dist"].get("backend"),
-                           input=c["input"], check_case_result=r, failing_cases_of_this_kind=len(items),
+                           input=c["input"], case_dist=c["dist"], check_case_result=r, failing_cases_of_this_kind=len(items),
                            failing_cases_total=len(bad), operations_and_observations=trace[-8:],
                            case_coq=c["coq"][:60000],
                            replay_cmd="VERIF_SEED=%s ./check %s --tier %s   (case %s)" % (ctx.seed, pid, ctx.tier, c["id"])))
